@@ -3,6 +3,8 @@ package main
 import (
 	"crypto/ed25519"
 	"crypto/sha256"
+	"encoding/base64"
+	"encoding/hex"
 	"fmt"
 	"math/rand"
 	"sort"
@@ -20,7 +22,7 @@ import (
 // ---- identity builders -------------------------------------------------------
 
 func xIdent(x *keys.X) ident {
-	return ident{desc: "X:" + x.SecretStr, kind: 'X', id: x.Identity(), ref: x.Ref}
+	return ident{desc: "X:" + x.SecretStr, kind: 'X', id: x.Identity(), ref: x.Ref, half: xHalf(x.Public)}
 }
 
 // freshX is a native key pair nobody else in the run uses.
@@ -28,11 +30,11 @@ func freshX(label string) *keys.X { return keys.NewX("c04-fresh-" + label) }
 
 func partyIdent(name string) ident {
 	p := keys.P(name)
-	return ident{desc: name, kind: p.Kind, id: p.Identity, ref: p.Ref}
+	return ident{desc: name, kind: p.Kind, id: p.Identity, ref: p.Ref, half: partyHalf(name)}
 }
 
 func passIdent(pass string) ident {
-	return ident{desc: "S:" + strconv.QuoteToASCII(pass), kind: 'S', id: keys.ScryptIdentity(pass, 0), ref: refage.ScryptKey{Pass: pass}}
+	return ident{desc: "S:" + strconv.QuoteToASCII(pass), kind: 'S', id: keys.ScryptIdentity(pass, 0), ref: refage.ScryptKey{Pass: pass}, half: passHalf(pass)}
 }
 
 // edPair is a deterministic "fresh" ssh-ed25519 key pair.
@@ -61,7 +63,7 @@ func freshEd(label string) *edPair {
 	}
 	ref := refage.EdKey{Seed: seed[:], Pub: []byte(pub)}
 	return &edPair{label: label, rcpt: rc, ref: ref,
-		id: ident{desc: "E:fresh(" + label + ")", kind: 'E', id: id, ref: ref}}
+		id: ident{desc: "E:fresh(" + label + ")", kind: 'E', id: id, ref: ref, half: "ssh:" + base64.StdEncoding.EncodeToString(sp.Marshal())}}
 }
 
 // encIdent builds a passphrase-protected SSH identity from the fixed key files
@@ -80,7 +82,69 @@ func (m *monitor) encIdent(name string) ident {
 	if err != nil {
 		panic(err)
 	}
-	return ident{desc: name, kind: kind, id: id}
+	return ident{desc: name, kind: kind, id: id, half: sshFileHalf(name)}
+}
+
+// ---- public halves -------------------------------------------------------------
+//
+// The premise of C04 is about what the CALLER asked for: the recipients handed
+// to Encrypt and the identities handed to Decrypt have disjoint public halves.
+// A "half" is a string computed from key material only (never from the file):
+// the 32 public-key bytes of a native key (derived by the reference for an
+// identity), the SSH wire encoding of an SSH public key, and for a passphrase
+// the HMAC key scrypt's PBKDF2 actually uses.
+
+func xHalf(pub []byte) string { return "X:" + hex.EncodeToString(pub) }
+
+// passHalf: PBKDF2-HMAC-SHA256 uses the passphrase as an HMAC key: longer than
+// the 64-byte block it is hashed, shorter it is padded with zero bytes. Two
+// passphrases with the same padded key ARE the same key in every
+// implementation of the format (p and p+"\x00"), like the clamped bits of an
+// X25519 secret.
+func passHalf(pass string) string {
+	b := []byte(pass)
+	if len(b) > 64 {
+		h := sha256.Sum256(b)
+		b = h[:]
+	}
+	k := make([]byte, 64)
+	copy(k, b)
+	return "S:" + hex.EncodeToString(k)
+}
+
+// sshFileHalf: the base64 wire encoding in a fixed key's .pub file.
+func sshFileHalf(file string) string {
+	f := strings.Fields(string(keys.Data(file + ".pub")))
+	if len(f) < 2 {
+		panic("keys: " + file + ".pub")
+	}
+	return "ssh:" + f[1]
+}
+
+// partyHalf is the public half of a party of the recipient universe ("" for
+// the U parties, which nobody can open).
+func partyHalf(name string) string {
+	switch name[0] {
+	case 'X':
+		return xHalf(keys.NewX(name).Public)
+	case 'E':
+		return sshFileHalf("ed" + name[1:])
+	case 'R':
+		return sshFileHalf("rsa" + name[1:])
+	case 'S':
+		return passHalf(keys.P(name).Pass)
+	}
+	return ""
+}
+
+func wantOf(ps []*keys.Party) []string {
+	var out []string
+	for _, p := range ps {
+		if h := partyHalf(p.Name); h != "" {
+			out = append(out, h)
+		}
+	}
+	return out
 }
 
 // ---- file helpers --------------------------------------------------------------
